@@ -430,7 +430,7 @@ def wf_corpus(tier, cfgs, sample_q=23, sample_t=211, **kw):
 
 def c03(tier):
     build(("release",))
-    c = Check("C03", tier, "exploration")
+    c = Check("C03", tier, "model_checking")
     # the rewriting rules with their own state machines: every enumerated literal / comment, formatted twice
     mlstring_mc_and_replay(c, tier)
     comment_mc_and_replay(c, tier)
